@@ -4,7 +4,8 @@
  *  tcp <con:snd:max:round> <streamhex|-> <steps>
  *     steps ','-separated:  q:<hex>  |  t:<secs>  |  d:<poll>:<y|n>:<recvs|->:<sends|->
  *     poll = 0 | E | subset of "IOH" ("-" = ready, no flags);  recvs/sends '.'-separated: <n> | w | z | x
- *  =>  <rc,rc,...> <conn|conn|...> <pdu|pdu|...> <inLen> <reqstate|...>   ('-' for empty lists) */
+ *  =>  <rc,rc,...> <conn|conn|...> <pdu|pdu|...> <inLen> <reqstate|...> rx:<bytes|bytes|...>   ('-' for empty lists)
+ *      pdu: what the client's getResponse hands up, in that order; rx: the bytes each connection delivered to the reader */
 #include <sys/types.h>
 #include <sys/socket.h>
 #include <sys/ioctl.h>
@@ -26,6 +27,7 @@ static char g_recvs[4096], g_sends[4096]; static char *g_rp, *g_sp;
 static int g_poll_ret; static short g_revents; static int g_connect_ok; static time_t g_now;
 #define MAXCONN 64
 static unsigned char *g_conn[MAXCONN]; static size_t g_connlen[MAXCONN]; static int g_nconn;
+static unsigned char *g_rx[MAXCONN]; static size_t g_rxlen[MAXCONN];     /* what each connection delivered to the reader */
 
 static char *next_item(char **p) {
 	char *s = *p, *e;
@@ -49,7 +51,7 @@ static int sim_close(int fd) { (void)fd; return 0; }
 static int sim_connect(int fd, const struct sockaddr *a, socklen_t l) {
 	(void)fd; (void)a; (void)l;
 	if (!g_connect_ok) { errno = ECONNREFUSED; return -1; }
-	if (g_nconn < MAXCONN) { g_conn[g_nconn] = (unsigned char *)calloc(1, 1); g_connlen[g_nconn] = 0; g_nconn++; }
+	if (g_nconn < MAXCONN) { g_conn[g_nconn] = (unsigned char *)calloc(1, 1); g_connlen[g_nconn] = 0; g_rx[g_nconn] = (unsigned char *)calloc(1, 1); g_rxlen[g_nconn] = 0; g_nconn++; }
 	errno = EINPROGRESS; return -1;
 }
 static int sim_poll(struct pollfd *p, nfds_t n, int t) { (void)n; (void)t; if (g_poll_ret > 0) p->revents = g_revents; if (g_poll_ret < 0) errno = EBADF; return g_poll_ret; }
@@ -64,6 +66,7 @@ static ssize_t sim_recv(int fd, void *buf, size_t len, int fl) {
 	if (k > avail) k = avail;
 	if (k == 0) { errno = EWOULDBLOCK; return -1; }
 	memcpy(buf, g_stream + g_spos, k); g_spos += k;
+	if (g_nconn > 0) { int c = g_nconn - 1; g_rx[c] = (unsigned char *)realloc(g_rx[c], g_rxlen[c] + k + 1); memcpy(g_rx[c] + g_rxlen[c], buf, k); g_rxlen[c] += k; }
 	return (ssize_t)k;
 }
 static ssize_t sim_send(int fd, const void *buf, size_t len, int fl) {
@@ -140,13 +143,15 @@ static void do_line(char *work, const char *orig) {
 		if (g_nconn == 0) putchar('-');
 		for (i = 0; i < g_nconn; i++) { if (i) putchar('|'); puthex(stdout, g_conn[i], g_connlen[i]); free(g_conn[i]); }
 		putchar(' ');
-		k = KSI_OctetStringList_length(t->respQueue);
-		if (k == 0) putchar('-');
-		for (i = 0; i < (int)k; i++) {
-			KSI_OctetString *os = NULL; const unsigned char *d; size_t dl;
-			KSI_OctetStringList_elementAt(t->respQueue, (size_t)i, &os); KSI_OctetString_extract(os, &d, &dl);
-			if (i) putchar('|'); puthex(stdout, d, dl);
+		/* what the upper layer is handed, in the order it is handed it (through the client's own getResponse) */
+		for (k = 0; ; k++) {
+			KSI_OctetString *os = NULL; const unsigned char *d; size_t dl, left = 0;
+			if (c->getResponse(c->clientImpl, &os, &left) != KSI_OK || os == NULL) break;
+			KSI_OctetString_extract(os, &d, &dl);
+			if (k) putchar('|'); puthex(stdout, d, dl);
+			KSI_OctetString_free(os);
 		}
+		if (k == 0) putchar('-');
 		printf(" %zu ", t->inLen);
 		if (nh == 0) putchar('-');
 		for (i = 0; i < nh; i++) {
@@ -157,6 +162,9 @@ static void do_line(char *work, const char *orig) {
 			else printf("X%d:%zu", hs[i]->state, hs[i]->sentCount);
 			KSI_AsyncHandle_free(hs[i]);
 		}
+		printf(" rx:");
+		if (g_nconn == 0) putchar('-');
+		for (i = 0; i < g_nconn; i++) { if (i) putchar('|'); puthex(stdout, g_rx[i], g_rxlen[i]); free(g_rx[i]); }
 		KSI_AsyncClient_free(c);
 		free(g_stream);
 	} else printf("UNKNOWN-OP");
